@@ -140,6 +140,16 @@ pub fn typed(args: &[&str]) -> Option<Vec<String>> {
     let a = *args.get(1)?;
     let b = *args.get(2)?;
     let mut h = Headers::new();
+    // get after set, the value `remove` hands back, and the header being gone afterwards
+    let chk = |got: Option<bool>, removed: Option<bool>, gone: bool| -> Option<&'static str> {
+        Some(match (got?, removed, gone) {
+            (true, Some(true), true) => "same",
+            (false, _, _) => "different",
+            (_, Some(false), _) => "remove-returned-a-different-value",
+            (_, None, _) => "remove-returned-none",
+            (_, _, false) => "still-there-after-remove",
+        })
+    };
     let same = match kind {
         "cdisp" => {
             let name = unhex_str(b)?;
@@ -150,12 +160,12 @@ pub fn typed(args: &[&str]) -> Option<Vec<String>> {
                 _ => return None,
             };
             h.set(v.clone());
-            h.get::<ContentDisposition>().map(|g| g == v)
+            chk(h.get::<ContentDisposition>().map(|g| g == v), h.clone().remove::<ContentDisposition>().map(|g| g == v), { let mut h2 = h.clone(); h2.remove::<ContentDisposition>(); h2.get::<ContentDisposition>().is_none() })
         }
         "mimever" => {
             let v = MimeVersion::new(a.parse().ok()?, b.parse().ok()?);
-            h.set(v);
-            h.get::<MimeVersion>().map(|g| g == v)
+            h.set(v.clone());
+            chk(h.get::<MimeVersion>().map(|g| g == v), h.clone().remove::<MimeVersion>().map(|g| g == v), { let mut h2 = h.clone(); h2.remove::<MimeVersion>(); h2.get::<MimeVersion>().is_none() })
         }
         "cte" => {
             let v: ContentTransferEncoding = match a {
@@ -166,13 +176,13 @@ pub fn typed(args: &[&str]) -> Option<Vec<String>> {
                 "n" => ContentTransferEncoding::Binary,
                 _ => return None,
             };
-            h.set(v);
-            h.get::<ContentTransferEncoding>().map(|g| g == v)
+            h.set(v.clone());
+            chk(h.get::<ContentTransferEncoding>().map(|g| g == v), h.clone().remove::<ContentTransferEncoding>().map(|g| g == v), { let mut h2 = h.clone(); h2.remove::<ContentTransferEncoding>(); h2.get::<ContentTransferEncoding>().is_none() })
         }
         "ctype" => {
             let Ok(v) = ContentType::parse(&unhex_str(a)?) else { return Some(vec!["unparseable".into(), "-".into()]) };
             h.set(v.clone());
-            h.get::<ContentType>().map(|g| g == v)
+            chk(h.get::<ContentType>().map(|g| g == v), h.clone().remove::<ContentType>().map(|g| g == v), { let mut h2 = h.clone(); h2.remove::<ContentType>(); h2.get::<ContentType>().is_none() })
         }
         "text" => {
             let v = header::Subject::from(unhex_str(a)?);
@@ -182,11 +192,11 @@ pub fn typed(args: &[&str]) -> Option<Vec<String>> {
             if raw != Some(true) {
                 return Some(vec![hex(h.to_string().as_bytes()), "case-insensitive-lookup-failed".into()]);
             }
-            h.get::<header::Subject>().map(|g| g == v)
+            chk(h.get::<header::Subject>().map(|g| g == v), h.clone().remove::<header::Subject>().map(|g| g == v), { let mut h2 = h.clone(); h2.remove::<header::Subject>(); h2.get::<header::Subject>().is_none() })
         }
         _ => return None,
     };
-    Some(vec![hex(h.to_string().as_bytes()), match same { Some(true) => "same".into(), Some(false) => "different".into(), None => "none".into() }])
+    Some(vec![hex(h.to_string().as_bytes()), same.unwrap_or("none").to_string()])
 }
 
 /// `build <op,op,…>`: ops `F`/`S`/`T`/`C`/`B`/`R` `:<name|->:<addr>`, `E:<from|->:<to;to>`, `K`;
